@@ -384,7 +384,26 @@ fn lookaround_capture_pattern(rng: &mut Rng) -> String {
     format!("(?:{}{}){}|{})", l1, body, t2, t3)
 }
 
+/// The API-level ops call `find_iter`, `replace_all`, … without a step budget: keep only the haystacks
+/// on which a budgeted search of both executors finishes (the rest is counted by the engine-level checks).
 fn api_regex(rng: &mut Rng) -> Option<(String, String, Regex, Vec<String>)> {
+    let (f, p, re, hays) = api_regex_unfiltered(rng)?;
+    let hays = hays
+        .into_iter()
+        .filter(|h| {
+            [Exec::Bt, Exec::Pk].iter().all(|e| {
+                regress::verif::fuel::reset(1_000_000);
+                let _ = guarded(std::panic::AssertUnwindSafe(|| find_all(&re, *e, h, 0, 0).0.len()));
+                let (_, _, exhausted) = regress::verif::fuel::report();
+                regress::verif::fuel::reset(u64::MAX);
+                !exhausted
+            })
+        })
+        .collect();
+    Some((f, p, re, hays))
+}
+
+fn api_regex_unfiltered(rng: &mut Rng) -> Option<(String, String, Regex, Vec<String>)> {
     if rng.chance(1, 2) {
         let fam;
         let lk;
